@@ -189,6 +189,19 @@ class Mode:
             ok = alg.v_equal(vg, ve)
             if ok:
                 return self._rec(name, "discharged", "polyid", time.time() - t)
+            ex = getattr(self, "explorer", None)
+            if ex is not None and ex.pc:
+                from . import paths as P
+
+                fs = ex.fixed + P.pc_formulas(ex.pc)
+                r, model, dt = P.check_sat(fs)
+                if r == "unsat":
+                    return self._rec(name, "discharged", "z3", dt, detail="path infeasible", vacuous=True)
+                if r != "sat":
+                    return self._rec(name, "undecided", "z3", dt, detail="values differ on a path whose feasibility is unknown")
+                real = P.numeric_counterexample(fs, ("atom", alg.v_sub(vg, ve), "=="), model)
+                return self._rec(name, "failed", "z3+polyid", time.time() - t, cex={"env": real if real is not None else model},
+                                 got=alg.fmt(vg, 8), exp=alg.fmt(ve, 8), detail="differs on a feasible path (a value-dependent branch in the code)")
             cex = find_counterexample(vg, ve, self.used)
             return self._rec(name, "failed", "polyid", time.time() - t, cex=cex,
                              got=alg.fmt(vg, 8), exp=alg.fmt(ve, 8))
@@ -477,6 +490,7 @@ def run_task(ref, shape, kind="sym", env=None, wanted=None, sample_seed=None):
     try:
         h = load_harness(ref)
         from . import alg, bind, sym as S
+        from .alg import Undecided
 
         if kind in ("sym", "mp"):
             bind.install_symbolic()
@@ -494,7 +508,18 @@ def run_task(ref, shape, kind="sym", env=None, wanted=None, sample_seed=None):
         M.mods = bind.modules()
         if kind == "mp":
             bind.PROXY.pi = M.F.pi
-        h.run(shape, M)
+        if kind == "sym":
+            del S.DIVLOG[:]
+        try:
+            h.run(shape, M)
+        except Undecided as ue:
+            if kind != "sym" or "outside a path exploration" not in str(ue):
+                raise
+            # the code under contract branches on real values where the harness did not expect it:
+            # explore every path of the whole harness run; obligations become 'path condition => clause'
+            _explore_harness(h, shape, M)
+        if kind == "sym" and not getattr(h, "allow_division_by_inputs", False):
+            _check_divisors(M)
         rec["results"] = M.results
         if sample_seed is not None:
             rec["env"] = {k: str(v) for k, v in M.env.items()}
@@ -504,18 +529,125 @@ def run_task(ref, shape, kind="sym", env=None, wanted=None, sample_seed=None):
     except Exception as e:  # noqa
         from .alg import Undecided
 
-        if isinstance(e, Undecided):
-            rec["status"] = "undecided"
-        else:
-            rec["status"] = "crash"
         rec["error"] = "%s: %s" % (type(e).__name__, e)
         rec["trace"] = traceback.format_exc()[-3000:]
         try:
             rec["results"] = M.results
         except Exception:
             pass
+        if isinstance(e, Undecided):
+            rec["status"] = "undecided"
+        elif _raised_in_repo(e):
+            # the function under contract raised on an input satisfying its precondition: that is a failed
+            # obligation of the contract ("returns normally"), not a checker crash
+            env = {}
+            try:
+                env = {k: str(v) for k, v in M.env.items()}
+            except Exception:
+                pass
+            rec["results"] = list(rec.get("results") or []) + [{
+                "name": "returns-normally", "status": "failed", "backend": "run", "secs": 0.0,
+                "detail": "the code under contract raised %s: %s\n%s" % (type(e).__name__, e, rec["trace"][-1200:]),
+                "cex": {"env": env}}]
+        else:
+            rec["status"] = "crash"
     rec["secs"] = round(time.time() - t0, 3)
     return rec
+
+
+def _explore_harness(h, shape, M):
+    from . import alg, paths as P, sym as S
+
+    stack = [[]]
+    allres = []
+    npaths = 0
+    while stack:
+        prefix = stack.pop()
+        ex = P.Explorer()
+        ex.prefix = prefix
+        S.set_decider(ex.decide)
+        M.results = []
+        M.explorer = ex
+        try:
+            h.run(shape, M)
+        finally:
+            S.set_decider(None)
+            M.explorer = None
+        for r in M.results:
+            r["name"] = "path%d/%s" % (npaths, r["name"])
+        allres += M.results
+        for i in range(len(prefix), len(ex.trace)):
+            stack.append(ex.trace[:i] + [not ex.trace[i]])
+        npaths += 1
+        if npaths > 64:
+            raise alg.Undecided("more than 64 paths through the harness")
+    M.results = allres
+
+
+def _check_divisors(M):
+    """well-definedness: every divisor (and base of a negative power) formed while the real code ran is
+    non-zero on the whole precondition domain"""
+    from . import alg, paths as P, sym as S
+
+    seen = []
+    bad = []
+    unknown = 0
+    for node in S.DIVLOG:
+        try:
+            v = S.expand(node)
+        except (alg.Undecided, ZeroDivisionError):
+            continue
+        if v.is_const() or S.syntactic_sign(v) is not None:
+            continue
+        if any(alg.v_equal(v, w) for w in seen):
+            continue
+        seen.append(v)
+        try:
+            r, model, dt = P.check_sat([("atom", v, "==")])
+        except alg.Undecided:
+            r, model = "unknown", None
+        if r == "sat":
+            bad.append((v, model))
+        elif r != "unsat":
+            unknown += 1
+    del S.DIVLOG[:]
+    if bad:
+        v, model = bad[0]
+        M._rec("well-defined/no-division-by-a-quantity-that-can-vanish", "failed", "z3", 0.0, cex={"env": model},
+               detail="the code divides by (or takes a negative power of) %s, which is zero at an admissible input; %d such divisors" % (alg.fmt(v, 6), len(bad)))
+    elif unknown:
+        M._rec("well-defined/no-division-by-a-quantity-that-can-vanish", "undecided", "z3", 0.0, detail="%d divisors undecided" % unknown)
+    else:
+        M._rec("well-defined/no-division-by-a-quantity-that-can-vanish", "discharged", "polyid+z3", 0.0, detail="%d non-trivial divisors" % len(seen))
+
+
+def _raised_in_repo(e):
+    from . import bind
+
+    root = os.path.realpath(bind.REPO)
+    tb = e.__traceback__
+    last = None
+    while tb is not None:
+        last = tb
+        tb = tb.tb_next
+    if last is None:
+        return False
+    fn = os.path.realpath(last.tb_frame.f_code.co_filename)
+    if fn.startswith(root + os.sep):
+        return True
+    # raised inside numpy / the proxy while executing a gbasis frame (e.g. an IndexError from indexing)
+    tb = e.__traceback__
+    frames = []
+    while tb is not None:
+        frames.append(os.path.realpath(tb.tb_frame.f_code.co_filename))
+        tb = tb.tb_next
+    inrepo = [i for i, f in enumerate(frames) if f.startswith(root + os.sep)]
+    if not inrepo:
+        return False
+    after = frames[inrepo[-1] + 1:]
+    verif = os.path.realpath(VERIF)
+    # frames after the last gbasis frame: numpy internals are fine, a harness / stub frame means the harness raised
+    return not any(f.startswith(os.path.join(verif, "contracts")) for f in after) and isinstance(e, (IndexError, ValueError, TypeError, KeyError, ZeroDivisionError, AttributeError, UnboundLocalError, NameError, AssertionError)) and not any("engine/alg.py" in f or "engine/paths.py" in f for f in after)
 
 
 def _parse_env(env):
@@ -728,10 +860,23 @@ def summarize(check, tier, seed, records, wall, extra_bounded=None):
         suffix = "" if confirmed else " no-failing-input-found"
         print("VIOLATION property=%s replay=%s obligation=%s%s" % (prop, path, full, suffix))
         # interface form: line must end with the words when no input is found
+    base = {}
+    try:
+        base = json.load(open(os.path.join(VERIF, "baseline_obligations.json"))).get(prop, {}).get(tier, {})
+    except Exception:
+        pass
+    vanished = None
+    if base and not getattr(check, "filtered", False):
+        if len(records) < base.get("tasks", 0):
+            vanished = "only %d of %d tasks ran" % (len(records), base["tasks"])
+        elif not failed and obligations < 0.9 * base.get("obligations", 0):
+            vanished = "only %d obligations generated, baseline %d" % (obligations, base["obligations"])
     if violations:
         status = 1
-    elif crashes or (obligations == 0 and bounded_total == 0):
+    elif crashes or (obligations == 0 and bounded_total == 0) or vanished:
         status = 3
+        if vanished:
+            print("CHECKER-ERROR obligations vanished: %s" % vanished, file=sys.stderr)
     elif undecided:
         status = 2
     for c in crashes[:5]:
@@ -762,6 +907,7 @@ def summarize(check, tier, seed, records, wall, extra_bounded=None):
             "trusted_base": check.assumptions,
             "explanation": check.note,
             "names_sha1": hashlib.sha1("\n".join(sorted(names)).encode()).hexdigest(),
+            "baseline": base or None,
         },
         "assumptions": check.assumptions,
         "wall_s": round(wall, 2),
